@@ -147,7 +147,7 @@ struct SlabEngine : Engine {
 		int focus = (prof == "C05" || rng.chance(1, 2)) ? (int)rng.below(big_slabs ? 4 + P.num_buckets - 4 : P.num_buckets) : -1;
 		if (big_slabs && focus >= 0 && focus < 3 && rng.chance(2, 3)) focus += 3; // 8..32-byte classes of a 256 KiB slab cost 10^4 hooks per slab
 		bool allow_large = prof != "C05" || rng.chance(1, 3);
-		p.knobs["cap1"] = 3000000;
+		p.knobs["cap1"] = 3000000; p.knobs["tier"] = tier;
 		int hbase = 0;
 		std::vector<int> next_id(p.ntasks + 1, 0);
 		// handles are partitioned between tasks at generation; give/take moves them at run time
@@ -260,7 +260,7 @@ struct SlabEngine : Engine {
 		// the pool orders its slabs by address), or a hole further up (regions no longer adjacent); plus zero-filled
 		// instead of garbage-filled memory sometimes (code must not rely on either)
 		int pmode = c.place ? (int)((splitmix(c.place, 77 + (uint64_t)j) >> 7) % 4) : 0; // 0,1 low  2 high  3 skip-ahead
-		uint64_t hi_limit = policy_base + ((uint64_t)96 << 20); // keep top-down placements within a window so that runs stay comparable
+		uint64_t hi_limit = policy_base + ((uint64_t)12 << 20) + 6 * (uint64_t)pi.sb_size; // a modest window: the working set (and its 8x shadow) must stay cache- and TLB-friendly
 		if (hi_limit > policy_top) hi_limit = policy_top;
 		auto fit_low = [&](uint64_t from, uint64_t gap_end) -> uint64_t {
 			uint64_t cand = (from + a - 1) & ~(uint64_t)(a - 1);
@@ -360,6 +360,7 @@ struct SlabEngine : Engine {
 	}
 
 	bool fair_phase_retry = false, granule = false;
+	uint64_t last_touched = 0; // arena offset of the block the current pool call returned or released
 
 	void on_access(int task, const void *addr, size_t n, bool write, bool atomic) override {
 		uint64_t o = off(addr);
@@ -449,12 +450,22 @@ struct SlabEngine : Engine {
 	void end_call(int me) {
 		cur[me].inflight_h = -1;
 		// quiescent instant in single-task runs: the requested bytes of EVERY live block must be unpoisoned
-		if (single && pi.poison) for (auto &kv : live_by_addr) {
-			Block &b = blk[kv.second];
-			if (!b.req || b.inflight) continue;
-			size_t head = b.req < 256 ? b.req : 256;
-			if (memchr(pshadow + kv.first, 1, head) || (b.req > 256 && memchr(pshadow + kv.first + b.req - 64, 1, 64)))
-				violation("not_unpoisoned", "after a pool call requested bytes of live block #%d (+0x%llx, %zu requested) are poisoned", kv.second, (unsigned long long)kv.first, b.req);
+		if (single && pi.poison && !live_by_addr.empty()) {
+			auto chk = [&](std::map<uint64_t, int>::iterator it) {
+				Block &b = blk[it->second];
+				if (!b.req || b.inflight) return;
+				size_t head = b.req < 256 ? b.req : 256;
+				if (memchr(pshadow + it->first, 1, head) || (b.req > 256 && memchr(pshadow + it->first + b.req - 64, 1, 64)))
+					violation("not_unpoisoned", "after a pool call requested bytes of live block #%d (+0x%llx, %zu requested) are poisoned", it->second, (unsigned long long)it->first, b.req);
+			};
+			if (live_by_addr.size() <= 48) { for (auto it = live_by_addr.begin(); it != live_by_addr.end(); ++it) chk(it); }
+			else { // many live blocks (bulk op): the neighbours in address order of the block this call touched are the ones at risk
+				auto it = live_by_addr.lower_bound(last_touched);
+				auto lo = it, hi = it;
+				for (int k = 0; k < 8 && lo != live_by_addr.begin(); k++) --lo;
+				for (int k = 0; k < 8 && hi != live_by_addr.end(); k++) ++hi;
+				for (auto x = lo; x != hi; ++x) chk(x);
+			}
 		}
 	}
 
@@ -508,7 +519,7 @@ struct SlabEngine : Engine {
 		}
 		if (pi.poison && memchr(pshadow + o, 1, need))
 			violation("not_unpoisoned", "%s(%zu) returned +0x%llx but not all requested bytes are unpoisoned", what, b.req, (unsigned long long)o);
-		live_by_addr[o] = h;
+		live_by_addr[o] = h; last_touched = o;
 		b.live = true; b.owner = me; b.offered = false; b.inflight = false;
 		uint64_t c = cls_of(rep);
 		if (c) { live_cls[c]++; if (live_cls[c] > peak_cls[c]) peak_cls[c] = live_cls[c]; }
@@ -543,6 +554,7 @@ struct SlabEngine : Engine {
 
 	void release_block(int h) {
 		Block &b = blk[h];
+		last_touched = off(b.ptr);
 		live_by_addr.erase(off(b.ptr));
 		uint64_t c = cls_of(b.reported); if (c) live_cls[c]--;
 		b.live = false; b.inflight = false; b.ptr = nullptr;
@@ -888,12 +900,13 @@ struct SlabEngine : Engine {
 			int task = s.first >> 20, opid = s.first & 0xFFFFF;
 			for (size_t i = 0; i < base.ops.size(); i++) if (base.ops[i].task == task && base.ops[i].id == opid) { if (s.second < 31) sites.push_back({i, s.second}); break; }
 		}
-		if (sites.size() > 40) sites.resize(40);
+		bool quick = base.knob("tier", 0) == 0;
+		if (sites.size() > (quick ? 20u : 40u)) sites.resize(quick ? 20 : 40);
 		auto with = [&](std::initializer_list<size_t> idx) { Plan q = base; for (size_t k : idx) q.ops[sites[k].first].mapfail |= 1u << sites[k].second; q.knobs["derived"] = 1; return q; };
 		for (size_t i = 0; i < sites.size(); i++) out.push_back(with({i}));
-		size_t np = sites.size() <= 8 ? sites.size() : 8;
+		size_t np = sites.size() <= 8 ? sites.size() : 8; if (quick && np > 5) np = 5;
 		for (size_t i = 0; i < np; i++) for (size_t j = i + 1; j < np; j++) out.push_back(with({i, j}));
-		if (sites.size() > 8) { Rng r; r.seed(base.seed ^ 0xC04); for (int k = 0; k < 16; k++) { size_t i = r.below(sites.size()), j = r.below(sites.size()); if (i != j) out.push_back(with({i, j})); } }
+		if (sites.size() > 8) { Rng r; r.seed(base.seed ^ 0xC04); for (int k = 0; k < (quick ? 6 : 16); k++) { size_t i = r.below(sites.size()), j = r.below(sites.size()); if (i != j) out.push_back(with({i, j})); } }
 	}
 
 	std::vector<Op> simplify(const Op &o) override {
